@@ -627,26 +627,38 @@ class Registry:
 
     # ----- registration ---------------------------------------------------------
     def add_contract(self, c):
-        self.contracts[c.qname] = c
+        """Several sidecar modules may give the same function a contract (e.g. C04 verifies
+        `_do_execute` in detail while C01 only needs a trusted summary of it).  The first one is registered
+        under the qualified name, further ones under 'qname#<module property>'."""
+        key = c.qname
+        if key in self.contracts:
+            key = '%s#%s' % (c.qname, getattr(getattr(c, 'module', None), 'prop', '?'))
+            n = 2
+            while key in self.contracts:
+                key = '%s#%s.%d' % (c.qname, getattr(getattr(c, 'module', None), 'prop', '?'), n)
+                n += 1
+        c.key = key
+        self.contracts[key] = c
 
     def link(self):
         """Resolve qualified names against the imported current tree."""
         self.by_func = {}
         self.missing = []
-        for q, c in self.contracts.items():
+        for key, c in self.contracts.items():
+            q = c.qname
             try:
                 obj, owner = frontend.resolve_qualified(q)
             except LookupError as e:
-                self.missing.append((q, str(e)))
+                self.missing.append((key, str(e)))
                 continue
             f = frontend.raw_function(obj)
             if not isinstance(f, types.FunctionType):
-                self.missing.append((q, 'contract target is not a python function: %r' % (obj,)))
+                self.missing.append((key, 'contract target is not a python function: %r' % (obj,)))
                 continue
             c.func = f
             c.owner = owner
             c.raw = obj
-            self.by_func[f] = c
+            self.by_func.setdefault(f, []).append(c)
             c.returns_value = None
         self.loops_by_code = {}
         for (q, ordinal), ls in self.loops.items():
@@ -659,7 +671,24 @@ class Registry:
             self.loops_by_code[(f.__code__, ordinal)] = ls
 
     def contract_for(self, func):
-        return self.by_func.get(func)
+        """The contract used at a call site: the one of the sidecar module whose function is being
+        verified if it has one, else the first verified (non-trusted) one, else the first."""
+        cands = self.by_func.get(func)
+        if not cands:
+            return None
+        cur = getattr(self, 'current_module', None)
+        for c in cands:
+            if getattr(c, 'module', None) is cur and cur is not None:
+                return c
+        for c in cands:
+            if not c.trusted:
+                return c
+        # an ASSUMED contract belongs to the module that states (and lists) the assumption: other modules
+        # see the real body, unless the assumption is declared shared
+        for c in cands:
+            if getattr(c, 'shared', False) or cur is None:
+                return c
+        return None
 
     def model_for(self, f):
         try:
@@ -857,7 +886,7 @@ class Contract:
     def __init__(self, qname, params=None, ghosts=None, requires=None, returns=None, ensures=None,
                  raises=None, may_raise=(), raises_only=None, modifies=None, props=(), setup=None,
                  old=None, pure_result=False, notes='', concretize=None, replay=None, trusted=False,
-                 cover=True, inline=False, event=None, yields=None):
+                 cover=True, inline=False, event=None, yields=None, shared=False):
         self.qname = qname
         self.params = params or {}
         self.ghosts = ghosts or {}
@@ -875,6 +904,7 @@ class Contract:
         self.replay = replay
         self.trusted = trusted              # True: assumed contract (not verified); listed in evidence
         self.cover = cover
+        self.shared = shared                # trusted contracts: also applied when other modules' functions are verified
         self.yields = yields                # generator functions: shape of the items (ListOf(...)) for call sites
         self.event = event                  # ghost event emitted at call sites that use the contract
         self.inline = inline                # verified, but call sites interpret the body (tiny helpers)
@@ -910,6 +940,7 @@ class Module:
 
     def contract(self, qname, **kw):
         c = Contract(qname, **kw)
+        c.module = self
         if not c.props:
             c.props = (self.prop,)
         self.contracts.append(c)
